@@ -941,13 +941,14 @@ func (m *Manager) recoverFromWAL() error {
 		}
 	}
 
-	// Add recovered memtables to the pool
+	// Add recovered memtables to the pool, oldest first. Installing a table as the
+	// active one turns the previously installed (non-empty) table into an immutable
+	// table of the pool, so every recovered table is visible to reads right away;
+	// the last one stays active.
 	for i, memTable := range memTables {
-		if i == len(memTables)-1 {
-			// The last memtable becomes the active one
-			m.memTablePool.SetActiveMemTable(memTable)
-		} else {
-			// Previous memtables become immutable
+		m.memTablePool.SetActiveMemTable(memTable)
+		if i < len(memTables)-1 {
+			// All but the last are also queued for flushing
 			memTable.SetImmutable()
 			m.immutableMTs = append(m.immutableMTs, memTable)
 		}
